@@ -8,7 +8,8 @@ cd /verif
 for p in "$@"; do
   out=$(VERIF_REPO=$w ./check $p 2>&1 | grep -E "^VIOLATION|^KNOWN|quick:" | cut -c1-220)
   echo "[$(basename $d)] $out"
-  cp evidence/replays/$p-1.json /verif/seeded/$(basename $d)/detected-replay-$p.json 2>/dev/null
+  rp=$(echo "$out" | grep -o "replay=[^ ]*" | head -1 | cut -d= -f2)
+  case "$rp" in *.json) cp "$rp" /verif/seeded/$(basename $d)/detected-replay-$p.json 2>/dev/null;; esac
   cp evidence/replays/$p-broken-obligation.txt /verif/seeded/$(basename $d)/detected-broken-$p.txt 2>/dev/null
 done
 cd $w && git checkout -q -- . && git clean -fdq
